@@ -969,3 +969,53 @@ def g_many_small_expansions(flags="c"):
     out.append(Case(ent_doc(decls2, "<r k='&e;'>&e;<i k='&e;'/>&e;</r>"), flags, True,
                     meta={"gen": "many-small-expansions-255", "wellformed": "four top-level references with 255 nested references each", "expect": "ok", "expect_len": 1020}))
     return out
+
+
+def g_borrow_after(flags="ncb"):
+    """plain strings AFTER strings that had to be copied: a text of several pieces / a normalised attribute value must not
+    change how a later plain text / plain value is stored (meta: per text node and per attribute, in document order, whether
+    it must be a slice of the input)"""
+    out = []
+    docs = [
+        ("<r><a>one<![CDATA[two]]></a><b>plain</b></r>", [False, True], []),
+        ("<r><a>1&amp;2</a><b>plain</b><c><![CDATA[sole]]></c></r>", [False, True, True], []),
+        ("<!DOCTYPE r [<!ENTITY e 'v'>]><r><a>1&e;2</a><b>plain</b>tail</r>", [False, True, True], []),
+        ("<r><e a='x\ny'/><e b='x y'/></r>", [], [False, True]),
+        ("<r><e href='p&#x71;' alt='pq'/></r>", [], [False, True]),
+        ("<r a='1&amp;2' b='1&amp;2' c='1&2x'/>".replace("&2x", "2x"), [], [False, False, True]),
+        ("<r><e a='v\tw'/>t<e a='v w' b='v\tw'/></r>", [True], [False, True, False]),
+        ("<r k='a&#9;'><a>x\r</a><b k='a\t'>x\n</b><c k='a '>x</c></r>", [False, True, True], [False, False, True]),
+    ]
+    for d, texts, attrs in docs:
+        out.append(Case(d, flags, True, meta={"gen": "borrow-after", "expect_borrowed_texts": texts, "expect_borrowed_attrs": attrs}))
+    return out
+
+
+def g_reserved_uri_values(flags="c"):
+    """the reserved namespace URIs as VALUES of ordinary attributes (only namespace declarations are restricted)"""
+    out = []
+    for uri in ("http://www.w3.org/2000/xmlns/", "http://www.w3.org/XML/1998/namespace"):
+        for doc, exp in (("<r a='%s'/>" % uri, uri), ("<r xmlns:p='u' p:a='%s'/>" % uri, uri), ("<r a='%s'/>" % uri.replace("/", "&#47;", 1), uri),
+                         ("<!DOCTYPE r [<!ENTITY w 'http://www.w3.org/'>]><r a='&w;%s'/>" % uri[len("http://www.w3.org/"):], uri)):
+            out.append(Case(doc, flags, True, meta={"gen": "reserved-uri-as-value", "src": doc, "expect_attr": exp}))
+    out.append(Case("<r a='http://www.w3.org/2000/xmlns/' b='http://www.w3.org/XML/1998/namespace' xml:lang='http://www.w3.org/2000/xmlns/'/>", flags, True,
+                    meta={"gen": "reserved-uri-as-value", "wellformed": "reserved URIs as values of ordinary attributes"}))
+    return out
+
+
+def g_ent_ladder(flags="c"):
+    """every level of an exponential family referenced at depth zero, lowest level first, then the top level: what was expanded
+    before does not make later expansions free"""
+    out = []
+    for f, d, leaf in ((8, 7, 16), (16, 3, 4), (3, 6, 2)):
+        decls = [("l0", "z" * leaf)] + [("l%d" % i, ("&l%d;" % (i - 1)) * f) for i in range(1, d + 1)]
+        nested_top = sum(f ** k for k in range(1, d + 1))
+        for upto in range(1, d + 1):
+            nested = sum(f ** k for k in range(1, upto + 1))
+            ok = (upto + 1 <= 10) and nested <= 255
+            ladder = "".join("&l%d;" % i for i in range(0, upto + 1))
+            for use in ("text", "attr"):
+                body = "<r>" + ladder + "</r>" if use == "text" else "<r a='" + ladder + "'/>"
+                out.append(Case(ent_doc(decls, body), flags, True,
+                                meta={"gen": "ladder-" + use, "f": f, "upto": upto, "expect": "ok" if ok else "EntityReferenceLoop"}))
+    return out
